@@ -51,6 +51,9 @@ ALPHABET = [
     'd:::{[1 2]}', 'e::d', 'e,[3 4]',
     '{+/x*x}:>[1.0 2.0]',
     'a::"xy"', 'a*2', 'b::a*2', 'd,[5 6]',
+    # a compiled comparison inside a function, applied to a flat list and then to a list with a one-element inner list
+    # (the per-node memo was made for the first; an object array goes through NumPy's truth-value comparison)
+    'h::{[t];t::x=1;t}', 'h([1 2 3])', 'h([1 [1]])',
 ]
 
 # depth-4 alphabet of the thorough tier when the full one does not fit (see run()): one representative per mechanism
@@ -58,7 +61,7 @@ REDUCED = [
     'a::[1 2 3]', 'a::[1.0 2.0 3.0]', 'a::"xy"', 'b::a', 'b::1_a', 'b::a,[]', 'a::a:=9,0', 'b::b:=9,0', 'c::a:=0.5,1',
     'm::[[1 2] [3 4]]', 'r::*m', 'm::m:-7,[0 0]', 'r::r:=5,0', 'f::{x:=0,0}', 'f(a)', 'g::{[1 2 3]}', 'c::g()',
     'c::c:=8,1', '+/a', 'a*2', 'b::a*2', '.module(:q)', '.module(0)', 'd:::{[1 2]}', 'e::d', 'e,[3 4]',
-    '{+/x*x}:>[1.0 2.0]',
+    '{+/x*x}:>[1.0 2.0]', 'h::{[t];t::x=1;t}', 'h([1 2 3])', 'h([1 [1]])',
 ]
 FULL_DEPTH_4 = False        # thorough tier: full alphabet at length 4 (False: REDUCED at length 4, full up to 3)
 
